@@ -1383,10 +1383,10 @@ Families ==
          FamRec("assign", FAssign \ {"vardecl", "const", "declstr", "swap"}, 2, 0, {"m"}, {2}),
          FamRec("ctl", FCtl \cup {"cond2"}, 3, 2, {"m"}, {1}),
          FamRec("label", FLabel \cup {"forever"}, 3, 3, {"m"}, {1}),
-         FamRec("layout", FLayout, 3, 2, {"m", "o"}, {1}),
+         FamRec("layout", FLayout, 3, 2, {"o"}, {1}),
          FamRec("switch", FSwitch \cup {"case2"}, 4, 1, {"m"}, {1}),
          FamRec("slice", FSlice \cup {"if"}, 2, 1, {"m"}, {5}),
-         FamRec("map", FMap \ {"mapvarkey"}, 3, 1, {"m"}, {5}),
+         FamRec("map", FMap \cup {"if"}, 2, 1, {"m"}, {5}),
          FamRec("struct", FStruct \ {"mvalue", "call", "envint"}, 3, 0, {"m"}, {1}),    FamRec("clos", FClos \cup {"func1", "funcv", "ret"}, 4, 2, {"m"}, {1}),
          FamRec("defer", FDefer, 5, 2, {"m"}, {1}),      FamRec("panic", FPanic, 3, 2, {"m"}, {0, 5}),
          FamRec("shadow", FShadow \cup {"for3", "swap"}, 2, 2, {"m"}, {1}),
